@@ -312,7 +312,7 @@ impl Layer {
         let width = u32::from_le_bytes(data[9..13].try_into().unwrap()) as usize;
         let height = u32::from_le_bytes(data[13..17].try_into().unwrap()) as usize;
         let mut data = &data[17..];
-        if width.checked_mul(height)?.checked_mul(14)? > data.len() {
+        if width > u16::MAX as usize || height > u16::MAX as usize || width.checked_mul(height)?.checked_mul(14)? > data.len() {
             return None;
         }
 
